@@ -20,6 +20,37 @@ inductive Tree where
 deriving Repr, Inhabited
 
 mutual
+/-- `Node.__eq__` / `LiteralNode.__eq__` (class, name / text, offset, length, children) -/
+def treeEq : Tree → Tree → Bool
+  | .leaf t o l, .leaf t' o' l' => t == t' && o == o' && l == l'
+  | .node n cs, .node n' cs' => n == n' && treeEqL cs cs'
+  | _, _ => false
+/-- list `==` in Python: same length and element-wise `==` -/
+def treeEqL : List Tree → List Tree → Bool
+  | [], [] => true
+  | a :: as, b :: bs => treeEq a b && treeEqL as bs
+  | _, _ => false
+end
+
+mutual
+theorem treeEq_iff : ∀ (t u : Tree), treeEq t u = true ↔ t = u
+  | .leaf t o l, .leaf t' o' l' => by
+    simp only [treeEq, Bool.and_eq_true, beq_iff_eq, Tree.leaf.injEq, and_assoc]
+  | .node n cs, .node n' cs' => by
+    simp only [treeEq, Bool.and_eq_true, beq_iff_eq, Tree.node.injEq, treeEqL_iff cs cs']
+  | .leaf _ _ _, .node _ _ => by simp [treeEq]
+  | .node _ _, .leaf _ _ _ => by simp [treeEq]
+theorem treeEqL_iff : ∀ (ts us : List Tree), treeEqL ts us = true ↔ ts = us
+  | [], [] => by simp [treeEqL]
+  | a :: as, b :: bs => by
+    simp only [treeEqL, Bool.and_eq_true, List.cons.injEq, treeEq_iff a b, treeEqL_iff as bs]
+  | [], _ :: _ => by simp [treeEqL]
+  | _ :: _, [] => by simp [treeEqL]
+end
+
+instance : DecidableEq Tree := fun a b => decidable_of_iff _ (treeEq_iff a b)
+
+mutual
 /-- `Node.value` / `LiteralNode.value` -/
 def Tree.value : Tree → List Nat
   | .leaf t _ _ => t
@@ -32,7 +63,7 @@ end
 structure Match where
   nodes : List Tree
   stop : Nat
-deriving Repr, Inhabited
+deriving Repr, Inhabited, DecidableEq
 
 /-- `"".join(n.value for n in match.nodes)` -/
 def Match.text (m : Match) : List Nat := Tree.values m.nodes
